@@ -168,9 +168,9 @@ Proof.
   { split; [|split].
     - repeat constructor; cbn; intuition discriminate.
     - intros r [<-|[<-|[<-|[]]]]; apply storedb_ok; vm_compute; reflexivity.
-    - apply fitb_ok. vm_compute. reflexivity. }
+    - apply (fitb_ok CS dm0 U0 (s_pin (p_ls ps0))). vm_compute. reflexivity. }
   split; [exact HS|]. split.
-  { apply clean_inv; [vm_compute; reflexivity | reflexivity | apply nozerob_ok; vm_compute; reflexivity | reflexivity]. }
+  { apply (clean_inv CS dm0 U0 (cnt ps0) ps0); [vm_compute; reflexivity | reflexivity | apply nozerob_ok; vm_compute; reflexivity | reflexivity]. }
   split; [repeat constructor; cbn; tauto|].
   vm_compute. repeat split; reflexivity.
 Qed.
